@@ -397,3 +397,59 @@ example := C05_sys exSys exSys_inv exSys_validated exBuilds
 example := C05_sys_force exSys exSys_inv exSys_validated exBuilds
 
 end BertE.C05
+
+
+/-! ### Work package Close: `C05_sys` without the `Validated` hypothesis (`Close.InvV` is inductive and implies it) -/
+namespace BertE.C05
+open BertE.Git BertE.Flow BertE.Select BertE.Close
+
+/-- **C05 on the system state, no `Validated` hypothesis** (statement of `C05_sys`). -/
+theorem C05_sys2 (s : Sys) (h : InvV s) (b : Builds) :
+    ∃ (n : Nat) (nh : Dest → Nat),
+      n ≤ (mainQueue s).length ∧
+      selectOf s b false =
+        (hotDests s).flatMap (fun d => ((entriesOn s d).take (nh d)).map (·.pr)) ++
+          ((mainQueue s).take n).map (·.pr) ∧
+      Green b s (((mainQueue s).take n).map (·.pr)) ∧
+      (∀ k, n < k → k ≤ (mainQueue s).length → ¬ Green b s (((mainQueue s).take k).map (·.pr))) ∧
+      (∀ d ∈ hotDests s, nh d ≤ (entriesOn s d).length ∧
+        Green b s (((entriesOn s d).take (nh d)).map (·.pr)) ∧
+        ∀ k, nh d < k → k ≤ (entriesOn s d).length → ¬ Green b s (((entriesOn s d).take k).map (·.pr))) ∧
+      C03.HeadsGreen b s (selectOf s b false) ∧
+      ∀ (rej : Ref → Bool) (k : Nat) (d : Dest),
+        (C01.observable s (planQueues s (selectOf s b false)) rej k).get (.dest d) = s.remote.get (.dest d) ∨
+        ∃ e, lastTargeting (C03.selected s (selectOf s b false)) d = some e ∧
+          (C01.observable s (planQueues s (selectOf s b false)) rej k).get (.dest d) = qwOf s.remote e d :=
+  C05_sys s h.inv (close_validated_of_invV h) b
+
+theorem C05_sys_force2 (s : Sys) (h : InvV s) (b : Builds) :
+    selectOf s b true =
+      (hotDests s).flatMap (fun d => (entriesOn s d).map (·.pr)) ++ (mainQueue s).map (·.pr) :=
+  C05_sys_force s h.inv (close_validated_of_invV h) b
+
+example := C05_sys2 exSys close_exSys_invV exBuilds
+example := C05_sys_force2 exSys close_exSys_invV exBuilds
+
+end BertE.C05
+
+
+/-! ### Work package Close: the known finding D18 as the failure of completeness of `validate()` without `NoTies` -/
+namespace BertE.C05
+open BertE.Git BertE.Flow BertE.Select BertE.Close BertE.QV
+
+/-- **D18** (`incoherent-queues-when-two-queued-prs-share-a-queue-commit`). The witness state `Close.tieSys` is
+    reached from the empty repository by an admissible history (two pull requests whose source branches are the
+    same commit, the one queued second having the smaller id), satisfies the strengthened invariant, `QSync` and the
+    cascade side conditions — every hypothesis of `C01_validate_complete` except `NoTies`: the queue commits of pull
+    requests 2 and 1 on development/4.3 are the same commit — and the modelled `validate()` reports
+    `QueueInconsistentPullRequestsOrder` (the real code on the real witness: IncoherentQueues [Q008], the same
+    class; `python -m harness.close_witness ties`): nothing is merged although the queue is well-formed. -/
+theorem C05_validate_ties_counterexample :
+    InvV tieSys ∧ QSync tieSys ∧ CascadeSide tieSys ∧ ¬ NoTies tieSys ∧
+    tieSys.remote.get (.qw 2 (.dev 4 (some 3)) "feature/a") = tieSys.remote.get (.qw 1 (.dev 4 (some 3)) "feature/b") ∧
+    errorsOf tieSys = some [.QueueInconsistentPullRequestsOrder] ∧ validated tieSys = false ∧
+    (build tieSys.g tieSys.remote).map (fun v => (v.d, v.ints.map (·.pr))) =
+      [(.dev 4 (some 3), [2, 1]), (.dev 5 (some 1), [1, 2])] :=
+  close_validate_ties_counterexample
+
+end BertE.C05
